@@ -469,7 +469,8 @@ class SqlImpl(TableImpl):
                 query.limit = nd.n
                 query.offset = nd.offset
             else:
-                query.limit = min(abs(query.limit - nd.offset), nd.n)
+                # nothing is left if the new offset lies beyond the rows kept so far
+                query.limit = max(0, min(query.limit - nd.offset, nd.n))
                 query.offset += nd.offset
 
         elif isinstance(nd, verbs.GroupBy):
